@@ -790,9 +790,14 @@ class Calendar(MutableTimeline[Event]):
             # window that contains its start (the oldest window also takes the ones
             # that began earlier and reach into the range), so one spanning a
             # window edge is yielded once.
+            # The API's lower bound is exclusive on an event's end, so an empty event
+            # [t, t) exactly on an inner window edge t overlaps neither neighbouring
+            # window: ask one second earlier (timestamps are whole seconds; the filter
+            # still assigns every event to the window that contains its start).
+            fetch_from = window_start if window_start == start else window_start - 1
             window_events = [
                 ev
-                for ev in self._fetch_forward(window_start, current_end)
+                for ev in self._fetch_forward(fetch_from, current_end)
                 if (ev.start < current_end or current_end == end)
                 and (ev.start >= window_start or window_start == start)
             ]
